@@ -50,6 +50,7 @@ type DepParams struct {
 }
 
 type builtDepBlock struct {
+	coinbasePays bool // pos != 0 and the block's coinbase pays the deposit script too
 	copyOf *builtDepBlock
 	spec   DepBlock
 	height uint64
@@ -133,6 +134,14 @@ func buildDepBlockReusing(spec DepBlock, keys []KeySpec, magic []byte, reuse *bu
 		case i == b.pos:
 			b.tx = world.SpendTx(uint64(spec.EvmSeed)*1000+b.height, outs...)
 			txs = append(txs, b.tx)
+		case i == 0 && reuse == nil:
+			// the coinbase pays the same deposit script as well (a second, position-0 deposit of this block)
+			var co []*wire.TxOut
+			for _, o := range outs {
+				co = append(co, wire.NewTxOut(o.Value, o.PkScript))
+			}
+			txs = append(txs, world.CoinbaseTx(b.height, co...))
+			b.coinbasePays = true
 		case i == 0:
 			txs = append(txs, world.CoinbaseTx(b.height))
 		default:
@@ -149,6 +158,15 @@ func (b *builtDepBlock) deposit() *bitcointypes.Deposit {
 	return &bitcointypes.Deposit{
 		Version: uint32(b.spec.Version), BlockNumber: b.height, TxIndex: uint32(b.pos),
 		NoWitnessTx: b.blk.Raw[b.pos], OutputIndex: b.outIdx, IntermediateProof: b.blk.Tree.Path(b.pos),
+		EvmAddress: b.evm, RelayerPubkey: b.key.Public(),
+	}
+}
+
+// coinbaseDeposit is the Deposit record for the block's coinbase (position 0) when it pays the deposit script too.
+func (b *builtDepBlock) coinbaseDeposit() *bitcointypes.Deposit {
+	return &bitcointypes.Deposit{
+		Version: uint32(b.spec.Version), BlockNumber: b.height, TxIndex: 0,
+		NoWitnessTx: b.blk.Raw[0], OutputIndex: b.outIdx, IntermediateProof: b.blk.Tree.Path(0),
 		EvmAddress: b.evm, RelayerPubkey: b.key.Public(),
 	}
 }
@@ -295,12 +313,13 @@ const (
 	mutBlockNumberOther
 	mutDupMirror     // the same deposit twice in one batch, the second under the mirror position of a duplicated last leaf
 	mutDupOtherBlock // the same transaction from two voted blocks in one batch
+	mutCoinbaseLater // the block's immature coinbase (paying the same script) as a later item of the batch
 	numDepMuts
 )
 
 var depMutNames = []string{"none", "header-other-height", "header-bitflip", "header-missing", "tx-byteflip", "tx-trailing-byte", "outidx-shift",
 	"version-swap", "evm-changed", "key-swap", "proof-truncated", "proof-extended", "proof-swapped", "proof-bitflip", "pos-neighbour", "pos-alias",
-	"pos-random", "dup-in-batch", "header-duplicated", "block-number-other", "dup-mirror-position", "dup-other-block"}
+	"pos-random", "dup-in-batch", "header-duplicated", "block-number-other", "dup-mirror-position", "dup-other-block", "immature-coinbase-later-in-batch"}
 
 type verdict int
 
@@ -462,6 +481,13 @@ func (f *depFixture) buildAttempt(st DepStep) (*bitcointypes.MsgNewDeposits, *bu
 				reject("same-output-from-two-blocks")
 				break
 			}
+		}
+	case mutCoinbaseLater:
+		// position 0 is the coinbase wherever it stands in a batch: with fewer than 100 voted blocks above it, the
+		// batch must fail (a mature coinbase would be a second valid deposit; that case is not expressed here)
+		if b.coinbasePays && b.spec.Depth < 100 {
+			msg.Deposits = append(msg.Deposits, b.coinbaseDeposit())
+			reject("immature-coinbase")
 		}
 	case mutBlockNumberOther:
 		if other != b {
